@@ -577,6 +577,81 @@ def ref_history_trial(a_pos, steps):
         env.close()
 
 
+def key_trial(a_pos, variants):
+    """Tub A gets a reference through B's FURL, then asks for FURLs that NAME THE SAME TUB in other words (other location hints, other
+    object name, a longer tubid part whose first 32 characters are B's id) and for FURLs naming C in B's location: every answer must
+    come over the Tub.brokers entry whose transport's certificate hashes to the tub id the FURL names; FURLs naming B must not open
+    a second connection."""
+    env = Env3(a_pos)
+    A, B, C, ids = env.A, env.B, env.C, env.ids
+    problems, rows = [], []
+    try:
+        B.registerReference(T(), name="o1")
+        B.registerReference(T(), name="o2")
+        C.registerReference(T(), name="o1")
+        furls = {"B": "pb://%s@fake:b:1/o1" % ids["B"], "B_other_hint": "pb://%s@fake:nowhere:9/o2" % ids["B"],
+                 "B_two_hints": "pb://%s@fake:nowhere:9,fake:b:1/o1" % ids["B"], "B_ext": "pb://%sa@fake:nowhere:9/o2" % ids["B"],
+                 "B_no_hints": "pb://%s@/o1" % ids["B"], "C_at_B": "pb://%s@fake:b:1/o1" % ids["C"], "C": "pb://%s@fake:c:1/o1" % ids["C"],
+                 "B_upper": "pb://%s@fake:b:1/o1" % ids["B"].upper(),
+                 # ids that differ from B's in ONE character (first / middle / last): other Tubs, which nobody here can prove to be
+                 "Bx_first": "pb://%s@fake:b:1/o1" % (("a" if ids["B"][0] != "a" else "b") + ids["B"][1:]),
+                 "Bx_mid": "pb://%s@fake:b:1/o1" % (ids["B"][:16] + ("a" if ids["B"][16] != "a" else "b") + ids["B"][17:]),
+                 "Bx_last": "pb://%s@fake:b:1/o1" % (ids["B"][:31] + ("a" if ids["B"][31] != "a" else "b"))}
+        for v in variants:
+            furl = furls[v]
+            res = []
+            A.getReference(furl).addBoth(res.append)
+            env.settle(res)
+            got = res[0] if res else None
+            ok = hasattr(got, "callRemote")
+            named = url_tubid(furl)
+            entry = None
+            if ok:
+                b = got.tracker.broker
+                entry = [tr.getTubID() for tr, bb in A.brokers.items() if bb is b]
+                cid = independent_tubid(b.transport.peer_cert) if isinstance(b.transport, E.End) else "loopback"
+                if cid != named.lower() and cid != named:
+                    problems.append(("reference-from-unproven-connection", "getReference(%s) was answered over a connection whose certificate hashes "
+                                     "to %s" % (furl, cid)))
+                if entry != [cid]:
+                    problems.append(("reference-from-other-tubs-connection", "getReference(%s) was answered by the Broker stored under %r, certificate %s"
+                                     % (furl, entry, cid)))
+            n_b = len([1 for (n, k, ic, cid) in env.t.attached if n == "A" and k == ids["B"]])
+            if n_b > 1:
+                problems.append(("second-connection-for-same-tub", "A registered %d connections for B after asking for %s" % (n_b, furl)))
+            rows.append(dict(variant=v, furl=furl, answered=ok, entry=entry, table=sorted(tr.getTubID() for tr in A.brokers)))
+        problems += [(p[0], repr(p[1:])) for p in env.t.bad]
+        return dict(a_pos=a_pos, variants=list(variants), rows=rows, problems=problems[:4], ids=ids)
+    finally:
+        env.close()
+
+
+def tubref_facts(ids):
+    """the REAL TubRef / SturdyRef key functions evaluated on a grid (for the correspondence with dict_match / getReference_key)"""
+    from foolscap.referenceable import TubRef, SturdyRef
+    flip = lambda t, i: t[:i] + ("a" if t[i] != "a" else "b") + t[i + 1:]
+    tubs = [ids["B"], ids["C"], ids["B"].upper(), ids["B"][:31], flip(ids["B"], 0), flip(ids["B"], 31), "", None]
+    hints = [[], ["tcp:x:1"], ["tcp:y:2", "tcp:x:1"]]
+    refs = [(t, h) for t in tubs for h in hints]
+    pairs = []
+    for (t1, h1) in refs:
+        for (t2, h2) in refs:
+            a, b = TubRef(t1, list(h1)), TubRef(t2, list(h2))
+            pairs.append(dict(a=(t1, h1), b=(t2, h2), eq=bool(a == b), ne=bool(a != b), same_hash=hash(a) == hash(b), found=(a in {b: 1})))
+    furls = ["pb://%s@tcp:h:1/n" % ids["B"], "pb://%s@tcp:h:1,tcp:g:2/other" % ids["B"], "pb://%sxyz@tcp:q:9/n" % ids["B"],
+             "pb://%s@/n" % ids["C"], "pb://%s@tcp:h:1/n" % ids["B"].upper(), "pb://%s@tcp:h:1/n" % ids["B"][:31], "pb://@tcp:h:1/n", "nonsense"]
+    keys = []
+    for f in furls:
+        try:
+            sr = SturdyRef(f)
+            tr = sr.getTubRef()
+            keys.append(dict(furl=f, s_tub=sr.tubID, s_hints=list(sr.locationHints), s_name=sr.name, tub=tr.getTubID(), hints=list(tr.getLocations()),
+                             independent_tub=url_tubid(f)))
+        except Exception as e:
+            keys.append(dict(furl=f, error=type(e).__name__))
+    return pairs, keys
+
+
 def gift_trial(a_pos, target_honest):
     env = Env3(a_pos)
     A, B, C, ids = env.A, env.B, env.C, env.ids
@@ -988,7 +1063,7 @@ def hello_bytes(lines):
 
 def byte_blocks(ids, leaf, x):
     """name -> bytes: the block library of the byte-level scripts (everything the raw peer can put on the wire after or instead
-    of the plaintext exchange).  Only ASCII and the bytes 0xFE/0xFF (never valid UTF-8) occur: see lib/IdentityBytesRef.v."""
+    of the plaintext exchange)."""
     from foolscap import vocab
     N = neg.Negotiation
     rng = "banana-negotiation-range: %d %d" % (N.minVersion, N.maxVersion)
@@ -1057,8 +1132,25 @@ def byte_blocks(ids, leaf, x):
         "Rblank": b"\r\n\r\n",
         "R500": b"HTTP/1.1 500 Internal Server Error: unknown TubID\r\n\r\n",
     }
-    for k, v in b.items():
-        assert all(c < 128 or c in (0xfe, 0xff) for c in v), k
+    # arbitrary bytes in header keys / values / the GET id: well-formed UTF-8 (2, 3, 4 byte forms) and every kind of malformed
+    # sequence (lone continuation, truncated, overlong, surrogate, above U+10FFFF); integer fields stay ASCII (NegCodec.py_int)
+    def with_note(note, claim=L):
+        return hello_bytes([rng, voc]).replace(b"\r\n\r\n", b"\r\nx-note: " + note + b"\r\nmy-tub-id: " + claim.encode() + b"\r\n\r\n")
+    b.update({
+        "Hleaf_u2": with_note("h\u00e9llo".encode()), "Hleaf_u3": with_note("\u20ac \u4e2d".encode()), "Hleaf_u4": with_note("\U0001F600".encode()),
+        "Hleaf_umax": with_note(b"\xf4\x8f\xbf\xbf"), "Hleaf_ukey": hello_bytes([rng, voc, "my-tub-id: " + L]).replace(b"my-tub", "\u00e9: 1\r\nmy-tub".encode()),
+        "Hx_u2": with_note("h\u00e9llo".encode(), X),
+        "Hbad_cont": with_note(b"\x80"), "Hbad_trunc": with_note(b"\xe2\x82"), "Hbad_overlong": with_note(b"\xc0\xaf"),
+        "Hbad_overlong3": with_note(b"\xe0\x80\xaf"), "Hbad_surrogate": with_note(b"\xed\xa0\x80"), "Hbad_above": with_note(b"\xf4\x90\x80\x80"),
+        "Hbad_f5": with_note(b"\xf5\x80\x80\x80"),
+        "Hclaim_u": hello_bytes([rng, voc]).replace(b"\r\n\r\n", b"\r\nmy-tub-id: " + L.encode()[:-2] + "\u00e9".encode() + b"\r\n\r\n"),
+        "Hclaim_nbsp": hello_bytes([rng, voc]).replace(b"\r\n\r\n", b"\r\nmy-tub-id: " + L.encode() + b"\xc2\xa0\r\n\r\n"),
+        "Hclaim_ws": hello_bytes([rng, voc]).replace(b"\r\n\r\n", b"\r\nmy-tub-id:\t \x0b" + L.encode() + b"\r\n\r\n"),
+        "D_u": hello_bytes(good_dec).replace(b"\r\n\r\n", b"\r\nx: \xe4\xb8\xad\r\n\r\n"),
+        "D_bad": hello_bytes(good_dec).replace(b"\r\n\r\n", b"\r\nx: \xe4\xb8\r\n\r\n"),
+        "GETu": b"GET /id/\xc3\xa9 HTTP/1.1\r\n\r\n", "GETbad": b"GET /id/\xc3 HTTP/1.1\r\n\r\n",
+        "R200u": b"HTTP/1.1 200 \xc3\xa9\r\n\r\n", "R200bad": b"HTTP/1.1 200 \xa9\r\n\r\n",
+    })
     return b
 
 
